@@ -178,7 +178,7 @@ Definition tab_of (sl : list slot) : list (option Z) :=
 
 Definition xabs (s : sst) : xst :=
   mkX (map (xio_of (slots s)) (iows s)) (tab_of (slots s)) (sgws s) (drun s ++ dlaters s)
-      (kpend s) (ready s) (inwait s) (snext s) (siter s) (slog s).
+      (kpend s) (ready s) (inwait s) (snext s) (siter s) (slog s) (running s).
 
 Lemma find_xio_map : forall sl id l, find_xio id (map (xio_of sl) l) = option_map (xio_of sl) (find_iow id l).
 Proof.
@@ -229,7 +229,7 @@ Record J (s : sst) : Prop := mkJ {
 (* what tickit_watch_cancel does, field by field *)
 Definition same_but_log (s s' : sst) : Prop :=
   kpend s' = kpend s /\ pending s' = pending s /\ errno s' = errno s /\ ready s' = ready s /\
-  inwait s' = inwait s /\ snext s' = snext s /\ siter s' = siter s.
+  inwait s' = inwait s /\ snext s' = snext s /\ siter s' = siter s /\ running s' = running s.
 
 Inductive cancel_case (s : sst) (id : Z) (s' : sst) : Prop :=
 | cc_io : forall w sl, find_iow id (iows s) = Some w -> nth_error (slots s) (i_slot w) = Some sl ->
@@ -372,14 +372,14 @@ Qed.
 
 Lemma xabs_same : forall s s', iows s' = iows s -> slots s' = slots s -> sgws s' = sgws s ->
   drun s' = drun s -> dlaters s' = dlaters s -> kpend s' = kpend s -> ready s' = ready s -> inwait s' = inwait s ->
-  snext s' = snext s -> siter s' = siter s -> slog s' = slog s -> xabs s' = xabs s.
-Proof. intros s s' H1 H2 H3 H4 H5 H6 H7 H8 H9 H10 H11. unfold xabs. congruence. Qed.
+  snext s' = snext s -> siter s' = siter s -> slog s' = slog s -> running s' = running s -> xabs s' = xabs s.
+Proof. intros s s' H1 H2 H3 H4 H5 H6 H7 H8 H9 H10 H11 H12. unfold xabs. congruence. Qed.
 
 (* ------------------------------------------------------------------ tickit_watch_cancel *)
 
 Lemma sim_cancel : forall s id, J s -> xabs (scancel s id) = x_cancel (xabs s) id /\ J (scancel s id).
 Proof.
-  intros s id HJ. destruct (scancel_cases s id HJ) as [[K1 [K2 [K3 [K4 [K5 [K6 K7]]]]]] C].
+  intros s id HJ. destruct (scancel_cases s id HJ) as [[K1 [K2 [K3 [K4 [K5 [K6 [K7 K8]]]]]]] C].
   pose proof (TW_scancel env s id (J_tw s HJ)) as HTW.
   set (s' := scancel s id) in *. clearbody s'.
   destruct C as [w sl Eio Hn Hi Hs Hg Hd Hr Hc Hl | w Eio Esg Ek Hi Hs Hg Hd Hr Hc Hl
@@ -389,7 +389,7 @@ Proof.
     destruct (J_io s HJ w Hin) as [sl0 [Hn0 [Hfd [Hw Hge]]]]. rewrite Hn in Hn0. inversion Hn0; subst sl0.
     split.
     + unfold xabs, x_cancel. cbn [x_ios]. rewrite find_xio_map, Eio. cbn [option_map xi_unbind xio_of].
-      rewrite Hi, Hs, Hg, Hd, Hr, K1, K4, K5, K6, K7, Hl.
+      rewrite Hi, Hs, Hg, Hd, Hr, K1, K4, K5, K6, K7, K8, Hl.
       assert (E1 : map (xio_of (set_nth (slots s) (i_slot w) (mkSlot (-1) (p_events sl) (p_revents sl) (-1)))) (remove_iow id (iows s)) =
                    remove_xio id (map (xio_of (slots s)) (iows s))).
       { rewrite remove_xio_map. apply xio_of_ext. intros w' _. apply (ev_at_set_same (slots s) (i_slot w) sl). exact Hn. }
@@ -414,7 +414,7 @@ Proof.
   - (* a signal watch *)
     split.
     + unfold xabs, x_cancel. cbn [x_ios x_sgs x_kpend]. rewrite find_xio_map, Eio. cbn [option_map]. rewrite Esg, Ek.
-      rewrite Hi, Hs, Hg, Hd, Hr, K1, K4, K5, K6, K7, Hl. destruct (g_unbind w); reflexivity.
+      rewrite Hi, Hs, Hg, Hd, Hr, K1, K4, K5, K6, K7, K8, Hl. destruct (g_unbind w); reflexivity.
     + apply mkJ; [exact HTW| |rewrite Hr, Hd; apply (J_ltnd s HJ)| | | |].
       * rewrite Hg. eapply subl_nodup; [apply subl_remove_sgw|apply (J_sgnd s HJ)].
       * rewrite Hg, K6. intros v Hv. apply (J_sglt s HJ). eapply in_remove_sgw_elem. exact Hv.
@@ -426,7 +426,7 @@ Proof.
     split.
     + unfold xabs, x_cancel. cbn [x_ios x_sgs x_kpend x_def]. rewrite find_xio_map, Eio. cbn [option_map]. rewrite Esg.
       rewrite find_ltr_app, Edr, Edl, remove_ltr_app, Edr.
-      rewrite Hi, Hs, Hg, Hd, Hr, K1, K4, K5, K6, K7, Hl. destruct (l_unbind w); reflexivity.
+      rewrite Hi, Hs, Hg, Hd, Hr, K1, K4, K5, K6, K7, K8, Hl. destruct (l_unbind w); reflexivity.
     + assert (Hsub : subl (map l_id (drun s ++ remove_ltr id (dlaters s))) (map l_id (drun s ++ dlaters s))).
       { rewrite !map_app. apply subl_app; [apply subl_refl|apply subl_remove_ltr]. }
       apply mkJ; [exact HTW|rewrite Hg; apply (J_sgnd s HJ)| | | | |].
@@ -440,7 +440,7 @@ Proof.
     split.
     + unfold xabs, x_cancel. cbn [x_ios x_sgs x_kpend x_def]. rewrite find_xio_map, Eio. cbn [option_map]. rewrite Esg.
       rewrite find_ltr_app, Edr, remove_ltr_app, Edr.
-      rewrite Hi, Hs, Hg, Hd, Hr, K1, K4, K5, K6, K7, Hl. destruct (l_unbind w); reflexivity.
+      rewrite Hi, Hs, Hg, Hd, Hr, K1, K4, K5, K6, K7, K8, Hl. destruct (l_unbind w); reflexivity.
     + assert (Hsub : subl (map l_id (remove_ltr id (drun s) ++ dlaters s)) (map l_id (drun s ++ dlaters s))).
       { rewrite !map_app. apply subl_app; [apply subl_remove_ltr|apply subl_refl]. }
       apply mkJ; [exact HTW|rewrite Hg; apply (J_sgnd s HJ)| | | | |].
@@ -463,7 +463,7 @@ Qed.
 Lemma sim_action : forall s a, J s -> act_ok a ->
   xabs (sdo_action fixed_cfg s a) = x_action (xabs s) a /\ J (sdo_action fixed_cfg s a).
 Proof.
-  intros s a HJ Hok. destruct a as [ub cb|fd cond ub cb|sig ub cb|id|e|sig|].
+  intros s a HJ Hok. destruct a as [ub cb|fd cond ub cb|sig ub cb|id|e|sig| |].
   - (* later *)
     split.
     + unfold xabs. cbn. rewrite app_assoc. reflexivity.
@@ -545,6 +545,7 @@ Proof.
     destruct (is_watched s sig); [|split; [reflexivity|exact HJ]].
     split; [reflexivity|]. eapply J_same; [exact HJ|reflexivity..|cbn; lia].
   - split; [reflexivity|exact HJ].
+  - split; [reflexivity|]. eapply J_same; [exact HJ|reflexivity..|cbn; lia].
 Qed.
 
 Hypothesis Henv : env_ok.
@@ -584,7 +585,7 @@ Qed.
 (* the batch being run only loses members *)
 Lemma act_drun : forall s a, J s -> subl (map l_id (drun (sdo_action fixed_cfg s a))) (map l_id (drun s)).
 Proof.
-  intros s a HJ. destruct a as [ub cb|fd cond ub cb|sig ub cb|id|e|sig|]; try apply subl_refl.
+  intros s a HJ. destruct a as [ub cb|fd cond ub cb|sig ub cb|id|e|sig| |]; try apply subl_refl.
   - destruct (sio_fields s fd cond ub cb) as [i [_ [_ [E _]]]]. rewrite E. apply subl_refl.
   - cbn [sdo_action]. destruct (scancel_cases s id HJ) as [_ C].
     destruct C as [w sl _ _ _ _ _ _ Hr _ _ | w _ _ _ _ _ _ _ Hr _ _ | w _ _ _ _ _ _ _ Hr _ _ | w _ _ _ _ _ _ _ _ Hr _ _ | E _];
@@ -598,7 +599,7 @@ Qed.
 Lemma act_dl_fresh : forall s a j, J s -> j < snext s -> ~ In j (map l_id (dlaters s)) ->
   j < snext (sdo_action fixed_cfg s a) /\ ~ In j (map l_id (dlaters (sdo_action fixed_cfg s a))).
 Proof.
-  intros s a j HJ Hlt Hn. destruct a as [ub cb|fd cond ub cb|sig ub cb|id|e|sig|]; try (split; [cbn; lia|exact Hn]).
+  intros s a j HJ Hlt Hn. destruct a as [ub cb|fd cond ub cb|sig ub cb|id|e|sig| |]; try (split; [cbn; lia|exact Hn]).
   - split; [cbn; lia|]. cbn. rewrite map_app. intros Hin. apply in_app_or in Hin. destruct Hin as [Hin|[Hin|[]]]; [contradiction|].
     cbn in Hin. lia.
   - destruct (sio_fields s fd cond ub cb) as [i [_ [_ [_ [E [_ [E2 _]]]]]]]. rewrite E, E2. split; [lia|exact Hn].
@@ -754,7 +755,7 @@ Qed.
 
 Lemma DI_action : forall k rest s a, J s -> act_ok a -> DI k rest s -> DI k rest (sdo_action fixed_cfg s a).
 Proof.
-  intros k rest s a HJ Hok HD. destruct a as [ub cb|fd cond ub cb|sig ub cb|id|e|sig|];
+  intros k rest s a HJ Hok HD. destruct a as [ub cb|fd cond ub cb|sig ub cb|id|e|sig| |];
     try (eapply DI_mono; [| | |exact HD]; try reflexivity; cbn; lia).
   - (* a new IO watch: its slot holds no conditions *)
     destruct HD as [A [B [C D]]].
@@ -950,7 +951,7 @@ Qed.
 Lemma WI_action : forall r s a, J s -> act_ok a -> (forall ub cb, a <> SSig sig ub cb) ->
   WI r s (cursor s) -> WI r (sdo_action fixed_cfg s a) (cursor (sdo_action fixed_cfg s a)).
 Proof.
-  intros r s a HJ Hok Hns HW. destruct a as [ub cb|fd cond ub cb|sg ub cb|id|e|sg|];
+  intros r s a HJ Hok Hns HW. destruct a as [ub cb|fd cond ub cb|sg ub cb|id|e|sg| |];
     try (eapply WI_mono; [| | |exact HW]; try reflexivity; cbn; lia).
   - destruct (sio_fields s fd cond ub cb) as [i [_ [Eg [_ [_ [Ec [En _]]]]]]].
     eapply WI_mono; [exact Eg|exact Ec|lia|exact HW].
@@ -1308,7 +1309,7 @@ Qed.
 Lemma polled_state : forall s R, J env s ->
   let s2 := up_inwait (up_ready (up_slots s (map (poll_slot R) (slots s))) []) [] in
   xabs s2 = mkX (x_ios (xabs s)) (x_tab (xabs s)) (x_sgs (xabs s)) (x_def (xabs s)) (x_kpend (xabs s)) [] []
-                (x_next (xabs s)) (x_iter (xabs s)) (x_log (xabs s)) /\
+                (x_next (xabs s)) (x_iter (xabs s)) (x_log (xabs s)) (x_run (xabs s)) /\
   J env s2 /\ DI 0 (map snap_of (slots s2)) s2.
 Proof.
   intros s R HJ s2.
@@ -1342,11 +1343,11 @@ Definition Bd (s : sst) : Prop := J env s /\ drun s = [] /\ pending s = [].
 Lemma subl_nil_map : forall (l : list ltr), subl (map l_id l) [] -> l = [].
 Proof. intros l H. apply subl_nil_inv in H. apply map_eq_nil in H. exact H. Qed.
 
-Theorem sim_stick : forall sleep s, Bd s ->
-  exists s', (xabs s' = x_tick env sleep (xabs s) /\ Bd s') /\
-  exists f0, forall fuel, (f0 <= fuel)%nat -> stick fixed_cfg env fuel sleep s = Some s'.
+Theorem sim_iteration : forall sleep s, Bd s ->
+  exists s', (xabs s' = x_iteration env sleep (xabs s) /\ Bd s') /\
+  exists f0, forall fuel, (f0 <= fuel)%nat -> iteration fixed_cfg env fuel sleep s = Some s'.
 Proof.
-  intros sleep s [HJ [Hdr Hpe]]. unfold stick. fold (before_poll sleep s).
+  intros sleep s [HJ [Hdr Hpe]]. unfold iteration. fold (before_poll sleep s). cbn [stop_early fixed_cfg andb].
   set (s1 := before_poll sleep s).
   assert (HJ1 : J env s1) by (eapply J_same; [exact HJ|reflexivity..|cbn; lia]).
   assert (Hsnap : io_snapshot (xabs s) = flat_map o2l (map snap_of (map (poll_slot (ready s1)) (slots s1))))
@@ -1358,10 +1359,10 @@ Proof.
   assert (Hdef : x_def (xabs s) = dlaters s) by (unfold xabs; cbn [x_def]; rewrite Hdr; reflexivity).
   assert (Hmsec : xabs s1' = mkX (x_ios (xabs s)) (x_tab (xabs s)) (x_sgs (xabs s)) (x_def (xabs s)) (x_kpend (xabs s)) [] []
             (x_next (xabs s)) (x_iter (xabs s) + 1)
-            (OPoll (if sleep then match x_def (xabs s) with [] => -1 | _ => 0 end else 0) :: x_log (xabs s))).
+            (OPoll (if sleep then match x_def (xabs s) with [] => -1 | _ => 0 end else 0) :: x_log (xabs s)) (x_run (xabs s))).
   { rewrite Ex2. unfold s1, before_poll, xabs. cbn. rewrite Hdr. reflexivity. }
   assert (Hdefs : map l_id (x_def (xabs s)) = map l_id (drun s1' ++ dlaters s1')) by reflexivity.
-  unfold x_tick. rewrite Hsnap.
+  unfold x_iteration. rewrite Hsnap.
   destruct (flat_map o2l (map snap_of polled)) as [|e0 snap] eqn:Esn.
   - (* no descriptor ready *)
     cbn [length Z.of_nat]. change (0 <? 0) with false. cbv iota.
@@ -1388,9 +1389,9 @@ Proof.
         assert (Ex3 : xabs (up_pending s3 []) = xabs s3) by reflexivity. rewrite Ex3, E3.
         assert (Ex2' : xabs s2 = mkX (x_ios (xabs s)) (x_tab (xabs s)) (x_sgs (xabs s)) (x_def (xabs s)) [] [] []
             (x_next (xabs s)) (x_iter (xabs s) + 1)
-            (OPoll (if sleep then match x_def (xabs s) with [] => -1 | _ => 0 end else 0) :: x_log (xabs s))).
+            (OPoll (if sleep then match x_def (xabs s) with [] => -1 | _ => 0 end else 0) :: x_log (xabs s)) (x_run (xabs s))).
         { transitivity (mkX (x_ios (xabs s1')) (x_tab (xabs s1')) (x_sgs (xabs s1')) (x_def (xabs s1')) [] [] []
-                            (x_next (xabs s1')) (x_iter (xabs s1')) (x_log (xabs s1'))); [reflexivity|]. rewrite Hmsec. reflexivity. }
+                            (x_next (xabs s1')) (x_iter (xabs s1')) (x_log (xabs s1')) (x_run (xabs s1'))); [reflexivity|]. rewrite Hmsec. reflexivity. }
         rewrite Ex2'. reflexivity.
       * apply subl_nil_map. cbn [drun up_pending] in R4. rewrite Hd3 in R4. exact R4.
       * rewrite (pending_dispatch_sigs _ _ _ _ _ _ (Hf0 f0 (Nat.le_refl _))). reflexivity.
@@ -1410,6 +1411,34 @@ Proof.
     + exists f0. intros fuel Hf. rewrite Hpos. apply Hf0. exact Hf.
 Qed.
 
+
+Lemma Bd_running : forall s v, Bd s -> Bd (up_running s v).
+Proof. intros s v [HJ [A B]]. split; [eapply J_same; [exact HJ|reflexivity..|cbn; lia]|split; assumption]. Qed.
+
+(* tickit_tick *)
+Theorem sim_stick : forall sleep s, Bd s ->
+  exists s', (xabs s' = x_tick env sleep (xabs s) /\ Bd s') /\
+  exists f0, forall fuel, (f0 <= fuel)%nat -> stick fixed_cfg env fuel sleep s = Some s'.
+Proof. intros sleep s HB. unfold stick, x_tick. apply (sim_iteration sleep (up_running s true)). apply Bd_running. exact HB. Qed.
+
+(* tickit_run: the passes the model makes are those of the specification, whichever callback
+   stops the loop and in which pass *)
+Theorem sim_run_passes : forall k s, Bd s ->
+  exists s', (xabs s' = x_run_passes env k (xabs s) /\ Bd s') /\
+  exists f0, forall fuel, (f0 <= fuel)%nat -> run_passes fixed_cfg env fuel k s = Some s'.
+Proof.
+  induction k as [|k IH]; intros s HB.
+  - exists s. split; [split; [reflexivity|exact HB]|]. exists O. intros fuel _. reflexivity.
+  - cbn [run_passes x_run_passes]. change (x_run (xabs s)) with (running s). destruct (negb (running s)).
+    + exists s. split; [split; [reflexivity|exact HB]|]. exists O. intros fuel _. reflexivity.
+    + set (s1 := if Nat.eqb k 0 then up_running s false else s).
+      assert (HB1 : Bd s1) by (unfold s1; destruct (Nat.eqb k 0); [apply Bd_running|]; exact HB).
+      assert (E1 : (if Nat.eqb k 0 then x_set_run (xabs s) false else xabs s) = xabs s1)
+        by (unfold s1; destruct (Nat.eqb k 0); reflexivity).
+      rewrite E1. destruct (sim_iteration true s1 HB1) as [s2 [[X2 HB2] [f1 Hf1]]].
+      destruct (IH s2 HB2) as [s' [[X' HB'] [f2 Hf2]]]. exists s'. split; [split; [rewrite X', X2; reflexivity|exact HB']|].
+      exists (Nat.max f1 f2). intros fuel Hf. rewrite (Hf1 fuel ltac:(lia)). apply Hf2. lia.
+Qed.
 
 (* ------------------------------------------------------------------ scripts *)
 
@@ -1434,7 +1463,7 @@ Proof.
   induction ops as [|o r IH]; intros s HB Hok.
   - exists s. split; [split; [reflexivity|exact HB]|]. exists O. intros fuel _. reflexivity.
   - inversion Hok as [|? ? Ho Hr]; subst. destruct HB as [HJ [Hdr Hpe]]. cbn [fold_left].
-    destruct o as [a|sl|fd rv|sg].
+    destruct o as [a|sl|fd rv|sg|rk].
     + cbn in Ho. destruct (sim_action env s a HJ Ho) as [E HJ2].
       assert (HB2 : Bd (sdo_action fixed_cfg s a)).
       { split; [exact HJ2|split; [|rewrite pending_sdo_action; exact Hpe]].
@@ -1456,6 +1485,10 @@ Proof.
       destruct (IH _ HB2 Hr) as [s' [[X Y] [f0 Hf0]]]. exists s'. split; [split; [|exact Y]|].
       * rewrite X. reflexivity.
       * exists f0. intros fuel Hf. cbn [sdo_op]. apply Hf0. exact Hf.
+    + destruct (sim_run_passes rk (up_running s true) (Bd_running s true (conj HJ (conj Hdr Hpe)))) as [s1 [[E HB1] [f1 Hf1]]].
+      destruct (IH s1 HB1 Hr) as [s' [[X Y] [f2 Hf2]]]. exists s'. split; [split; [|exact Y]|].
+      * rewrite X. cbn [x_op]. rewrite E. reflexivity.
+      * exists (Nat.max f1 f2). intros fuel Hf. cbn [sdo_op]. rewrite (Hf1 fuel ltac:(lia)). apply Hf2. lia.
 Qed.
 
 (* destruction *)
